@@ -25,6 +25,14 @@ def getCheckpoint (s : Wit.Store) (id : Bytes) : Resp :=
     | some b => { status := 200, body := b }
     | none => { status := 404, body := [] }
 
+/-- the same request when the storage read fails with anything but NotFound (`GetCheckpoint` returns the error,
+    `httpForCode` maps every code other than NotFound/AlreadyExists/the argument codes to 500): the handler must not
+    present the failure as "no checkpoint" -/
+def getCheckpointF (readFails : Bool) (s : Wit.Store) (id : Bytes) : Resp :=
+  if !routeMatch id then { status := 404, body := [] }
+  else if readFails then { status := 500, body := [] }
+  else getCheckpoint s id
+
 /-- what the bundled client makes of it -/
 inductive ClientRes
   | bytes (b : Bytes) | notExist | err
@@ -35,5 +43,9 @@ def client (r : Resp) : ClientRes :=
 
 /-- GET /witness/v0/logs: the IDs that have a checkpoint -/
 def getLogs (s : Wit.Store) : List Bytes := s.ids
+
+/-- the handler: status and, on 200, the list; a failing `Logs()` is a 500, never an (empty) list -/
+def getLogsF (logsFails : Bool) (s : Wit.Store) : Nat × List Bytes :=
+  if logsFails then (500, []) else (200, getLogs s)
 
 end Api
